@@ -3,6 +3,7 @@ import FractopoModel.Model.Snap
 import FractopoModel.Model.SnapLoop
 import FractopoModel.Generated.SnapInsert
 import FractopoModel.Generated.SnapDriver
+import FractopoModel.Generated.InsertPoint
 /-!
 # Runs the REGENERATED second snapping stage and the regenerated repeat-until-stable driver (translator validation, stream
 S06-generated).  Distances are compared squared; the vertex insertion is the exact model `Snap.insertGeo`.
@@ -36,6 +37,14 @@ def driverCmd (a : Args) : Option String := do
     | .ok (calls, loops) => s!"calls={calls} loops={loops}"
     | .error e => s!"err={e}")
 
+/-- `ginsert t= line= pt=`: the regenerated `insert_point_to_linestring` with exact squared distances -/
+def ginsert (a : Args) : Option String := do
+  let t ← (a.get? "t") >>= parseRat?
+  let l ← (a.get? "line") >>= parseLine?
+  let p ← (a.get? "pt") >>= parsePt?
+  let out := Gen.insert_point_to_linestring (fun c q => Pt.dist2 q c) (fun a b => a == b) (fun _ _ _ => 0) (fun a b q => ptSegDist2 q a b) l p (t * t)
+  some s!"line={showLine out}"
+
 def dispatch (line : String) : String :=
   let toks := (line.trimAscii.toString.splitOn " ").filter (· ≠ "")
   match toks with
@@ -47,6 +56,7 @@ def dispatch (line : String) : String :=
       | "snapto" => snapto a
       | "closeb" => closeb a
       | "driver" => driverCmd a
+      | "ginsert" => ginsert a
       | _ => some s!"error=unknown-command:{cmd}"
     r.getD "error=bad-arguments"
 
